@@ -79,7 +79,8 @@ pub(crate) fn impl_cbrt_uint_scale(
     new_scale -= digits_to_trim as i64;
 
     let divisor = ten_to_the_uint(digits_to_trim);
-    let (mut result_digits, remainder) = result_digits.div_rem(&divisor);
+    let full_result_digits = result_digits;
+    let (mut result_digits, remainder) = full_result_digits.div_rem(&divisor);
 
     let remainder_digits = remainder.to_radix_le(10);
     let insig_digit0;
@@ -95,7 +96,11 @@ pub(crate) fn impl_cbrt_uint_scale(
     }
 
     let insig_data = rounding::InsigData::from_digit_and_lazy_trailing_zeros(
-        rounding_data, insig_digit0, || { trailing_digits.iter().all(Zero::is_zero) }
+        rounding_data, insig_digit0, || {
+            // trailing digits are only "all zero" if the integer root was exact
+            trailing_digits.iter().all(Zero::is_zero)
+            && &full_result_digits * &full_result_digits * &full_result_digits == *integer_digits
+        }
     );
 
     // lowest digit to round
